@@ -10,38 +10,41 @@ the pending `apply_open_file_sync` writes it).
 -/
 namespace SchedReload
 
-def Ok (disk : TMap) (wm an : TMap) (u : Uri) : Prop := an u = overlay wm disk u
+/-- a uri that is a workspace file now is analysed with the editor text / the disk content; nothing is required of
+the others -/
+def Ok (disk : TMap) (m : Uri → Bool) (wm an : TMap) (u : Uri) : Prop := m u = true → an u = overlay wm disk u
 
 def MainFix (cur : List Step) (u : Uri) : Prop := (∃ t, Step.updAn u t ∈ cur) ∨ Step.closeAn u ∈ cur
 
 def CurOk (cur : List Step) (wm : TMap) : Prop :=
-  cur = [] ∨ (∃ u t, cur = [.syncWm u t, .updAn u t]) ∨ (∃ u t, cur = [.updAn u t] ∧ wm u = some t) ∨
+  cur = [] ∨ (∃ u t, cur = [.syncCheck u t]) ∨ (∃ u t, cur = [.updAn u t] ∧ wm u = some t) ∨
   (∃ u, cur = [.closeWm u, .closeAn u]) ∨ (∃ u, cur = [.closeAn u] ∧ wm u = none)
 
 /-- a snapshot is never newer than the current version; same version ⇒ same open files -/
-def F1 (ver : Nat) (wm : TMap) (σ : Snap) : Prop := σ.ver ≤ ver ∧ (σ.ver = ver → ∀ u, σ.files u = wm u)
+def F1 (ver : Nat) (m : Uri → Bool) (wm : TMap) (σ : Snap) : Prop :=
+  σ.ver ≤ ver ∧ (σ.ver = ver → ∀ u, σ.files u = filt m wm u)
 
-def SnapOk (rp : RPhase) (ver : Nat) (wm : TMap) : Prop :=
+def SnapOk (rp : RPhase) (ver : Nat) (m : Uri → Bool) (wm : TMap) : Prop :=
   match rp with
-  | .r2 σ => F1 ver wm σ
-  | .r3 σ => F1 ver wm σ
-  | .l1 σ => F1 ver wm σ
-  | .l2 _ ν => F1 ver wm ν
+  | .r2 σ => F1 ver m wm σ
+  | .r3 σ => F1 ver m wm σ
+  | .l1 σ => F1 ver m wm σ
+  | .l2 _ ν => F1 ver m wm ν
   | _ => True
 
-def Pend (rp : RPhase) (reloads : Nat) (wm : TMap) (u : Uri) : Prop :=
+def Pend (rp : RPhase) (reloads : List (Uri → Bool)) (m : Uri → Bool) (wm : TMap) (u : Uri) : Prop :=
   match rp with
-  | .idle => 0 < reloads
-  | .r1 => True
+  | .idle => reloads ≠ []
+  | .r1 _ => True
   | .r2 _ => True
   | .r3 _ => True
-  | .l1 σ => wm u ≠ σ.files u
+  | .l1 σ => filt m wm u ≠ σ.files u
   | .l2 σ ν => ν.files u ≠ none ∨ σ.files u ≠ none
 
 structure Inv (disk : TMap) (s : St) : Prop where
   curOk : CurOk s.cur s.wm
-  snapOk : SnapOk s.rp s.ver s.wm
-  owe : ∀ u, Ok disk s.wm s.an u ∨ MainFix s.cur u ∨ Pend s.rp s.reloads s.wm u
+  snapOk : SnapOk s.rp s.ver s.member s.wm
+  owe : ∀ u, Ok disk s.member s.wm s.an u ∨ MainFix s.cur u ∨ Pend s.rp s.reloads s.member s.wm u
 
 theorem set_same (m : TMap) (u : Uri) (v : Option Text) : m.set u v u = v := by simp [TMap.set]
 
@@ -52,16 +55,21 @@ theorem overlay_congr {wm wm' disk : TMap} {u : Uri} (h : wm' u = wm u) : overla
   simp [overlay, h]
 
 /-- bumping the version keeps every snapshot fact (the snapshot becomes strictly older) -/
-theorem f1_bump {ver : Nat} {wm wm' : TMap} {σ : Snap} (h : F1 ver wm σ) : F1 (ver + 1) wm' σ :=
+theorem f1_bump {ver : Nat} {m : Uri → Bool} {wm wm' : TMap} {σ : Snap} (h : F1 ver m wm σ) : F1 (ver + 1) m wm' σ :=
   ⟨by have := h.1; omega, fun e => by have := h.1; omega⟩
 
-theorem snapOk_bump {rp : RPhase} {ver : Nat} {wm wm' : TMap} (h : SnapOk rp ver wm) : SnapOk rp (ver + 1) wm' := by
+theorem snapOk_bump {rp : RPhase} {ver : Nat} {m : Uri → Bool} {wm wm' : TMap} (h : SnapOk rp ver m wm) :
+    SnapOk rp (ver + 1) m wm' := by
   cases rp <;> simp only [SnapOk] at h ⊢ <;> first | trivial | exact f1_bump h
 
 /-- `Pend` for a uri whose `wm` entry did not change -/
-theorem pend_congr {rp : RPhase} {k : Nat} {wm wm' : TMap} {u : Uri} (h : wm' u = wm u)
-    (hp : Pend rp k wm u) : Pend rp k wm' u := by
-  cases rp <;> simp only [Pend] at hp ⊢ <;> first | exact hp | (rw [h]; exact hp)
+theorem pend_congr {rp : RPhase} {k : List (Uri → Bool)} {m : Uri → Bool} {wm wm' : TMap} {u : Uri} (h : wm' u = wm u)
+    (hp : Pend rp k m wm u) : Pend rp k m wm' u := by
+  cases rp <;> simp only [Pend, filt] at hp ⊢ <;> first | exact hp | (rw [h]; exact hp)
+
+theorem ok_congr {disk : TMap} {m : Uri → Bool} {wm wm' an an' : TMap} {u : Uri} (hw : wm' u = wm u) (ha : an' u = an u)
+    (h : Ok disk m wm an u) : Ok disk m wm' an' u := by
+  intro hm; rw [ha, h hm]; exact (overlay_congr hw).symm
 
 theorem inv_main {disk : TMap} {s s' : St} (inv : Inv disk s) (h : exec realCfg disk s .main = some s') : Inv disk s' := by
   simp only [exec] at h
@@ -80,27 +88,49 @@ theorem inv_main {disk : TMap} {s s' : St} (inv : Inv disk s) (h : exec realCfg 
         · exact Or.inl h1
         · rw [hc] at h1; rcases h1 with ⟨_, h1⟩ | h1 <;> cases h1
         · exact Or.inr (Or.inr h1)
-  · -- syncWm u t
+  · -- syncCheck u t: record the editor text, decide whether the document is analysed
     rw [hc] at h; simp only [execStep, realCfg, if_true, Option.some.injEq] at h; subst h
-    refine ⟨Or.inr (Or.inr (Or.inl ⟨u, t, rfl, set_same _ _ _⟩)), snapOk_bump inv.snapOk, ?_⟩
-    intro v
-    by_cases hv : v = u
-    · subst hv; exact Or.inr (Or.inl (Or.inl ⟨t, by simp⟩))
-    · rcases inv.owe v with h1 | h1 | h1
-      · left; simp only [Ok] at h1 ⊢; rw [h1]; exact (overlay_congr (set_other _ _ hv)).symm
+    have hothers : ∀ v, v ≠ u → ∀ cur', (∀ t', Step.updAn v t' ∉ cur') → Step.closeAn v ∉ cur' →
+        (Ok disk s.member s.wm s.an v ∨ MainFix s.cur v ∨ Pend s.rp s.reloads s.member s.wm v) →
+        (Ok disk s.member (s.wm.set u (some t)) s.an v ∨ MainFix cur' v ∨
+          Pend s.rp s.reloads s.member (s.wm.set u (some t)) v) := by
+      intro v hv cur' _ _ h0
+      rcases h0 with h1 | h1 | h1
+      · exact Or.inl (ok_congr (set_other _ _ hv) rfl h1)
       · rw [hc] at h1
-        rcases h1 with ⟨t', h1⟩ | h1
-        · simp at h1; exact absurd h1.1 hv
-        · simp at h1
+        rcases h1 with ⟨t', h1⟩ | h1 <;> simp at h1
       · exact Or.inr (Or.inr (pend_congr (set_other _ _ hv) h1))
+    by_cases hsp : ((s.an u).isSome || s.member u) = true
+    · simp only [hsp, if_true]
+      refine ⟨Or.inr (Or.inr (Or.inl ⟨u, t, rfl, set_same _ _ _⟩)), snapOk_bump inv.snapOk, ?_⟩
+      intro v
+      by_cases hv : v = u
+      · subst hv; exact Or.inr (Or.inl (Or.inl ⟨t, by simp⟩))
+      · rcases hothers v hv [] (by simp) (by simp) (inv.owe v) with h1 | h1 | h1
+        · exact Or.inl h1
+        · rcases h1 with ⟨_, h1⟩ | h1 <;> cases h1
+        · exact Or.inr (Or.inr h1)
+    · simp only [hsp]
+      have hm : s.member u = false := by
+        cases hmu : s.member u with
+        | false => rfl
+        | true => simp [hmu] at hsp
+      refine ⟨Or.inl rfl, snapOk_bump inv.snapOk, ?_⟩
+      intro v
+      by_cases hv : v = u
+      · subst hv; left; intro hmv; rw [hm] at hmv; cases hmv
+      · rcases hothers v hv [] (by simp) (by simp) (inv.owe v) with h1 | h1 | h1
+        · exact Or.inl h1
+        · rcases h1 with ⟨_, h1⟩ | h1 <;> cases h1
+        · exact Or.inr (Or.inr h1)
   · -- updAn u t
-    rw [hc] at h; simp only [execStep, realCfg, if_true, Option.some.injEq] at h; subst h
+    rw [hc] at h; simp only [execStep, Option.some.injEq] at h; subst h
     refine ⟨Or.inl rfl, inv.snapOk, ?_⟩
     intro v
     by_cases hv : v = u
-    · subst hv; left; simp only [Ok, set_same, overlay, hw]
+    · subst hv; left; intro _; simp only [set_same, overlay, hw]
     · rcases inv.owe v with h1 | h1 | h1
-      · left; simp only [Ok] at h1 ⊢; rw [set_other _ _ hv]; exact h1
+      · exact Or.inl (ok_congr rfl (set_other _ _ hv) h1)
       · rw [hc] at h1
         rcases h1 with ⟨t', h1⟩ | h1
         · simp at h1; exact absurd h1.1 hv
@@ -113,20 +143,20 @@ theorem inv_main {disk : TMap} {s s' : St} (inv : Inv disk s) (h : exec realCfg 
     by_cases hv : v = u
     · subst hv; exact Or.inr (Or.inl (Or.inr (by simp)))
     · rcases inv.owe v with h1 | h1 | h1
-      · left; simp only [Ok] at h1 ⊢; rw [h1]; exact (overlay_congr (set_other _ _ hv)).symm
+      · exact Or.inl (ok_congr (set_other _ _ hv) rfl h1)
       · rw [hc] at h1
         rcases h1 with ⟨t', h1⟩ | h1
         · simp at h1
         · simp at h1; exact absurd h1 hv
       · exact Or.inr (Or.inr (pend_congr (set_other _ _ hv) h1))
   · -- closeAn u
-    rw [hc] at h; simp only [execStep, realCfg, if_true, Option.some.injEq] at h; subst h
+    rw [hc] at h; simp only [execStep, Option.some.injEq] at h; subst h
     refine ⟨Or.inl rfl, inv.snapOk, ?_⟩
     intro v
     by_cases hv : v = u
-    · subst hv; left; simp only [Ok, set_same, overlay, hw]
+    · subst hv; left; intro hm; replace hm : s.member _ = true := hm; simp only [set_same, overlay, hw, mdisk, hm, if_true]
     · rcases inv.owe v with h1 | h1 | h1
-      · left; simp only [Ok] at h1 ⊢; rw [set_other _ _ hv]; exact h1
+      · exact Or.inl (ok_congr rfl (set_other _ _ hv) h1)
       · rw [hc] at h1
         rcases h1 with ⟨t', h1⟩ | h1
         · simp at h1
@@ -144,7 +174,8 @@ theorem inv_rstep {disk : TMap} {s s' : St} (inv : Inv disk s) (h : exec realCfg
   simp only [exec] at h
   cases hrp : s.rp with
   | idle => rw [hrp] at h; cases h
-  | r1 =>
+  | r1 m =>
+    -- the new matcher is installed and the snapshot taken in one critical section
     rw [hrp] at h; simp only [Option.some.injEq] at h; subst h
     exact ⟨inv.curOk, ⟨Nat.le_refl _, fun _ _ => rfl⟩, fun u => Or.inr (Or.inr trivial)⟩
   | r2 σ =>
@@ -156,8 +187,11 @@ theorem inv_rstep {disk : TMap} {s s' : St} (inv : Inv disk s) (h : exec realCfg
     have hs := inv.snapOk; rw [hrp] at hs
     refine ⟨inv.curOk, hs, ?_⟩
     intro u
-    by_cases hw : s.wm u = σ.files u
-    · left; simp only [Ok, overlay, hw]
+    by_cases hw : filt s.member s.wm u = σ.files u
+    · left; intro hm
+      replace hm : s.member u = true := hm
+      simp only [filt, hm, if_true] at hw
+      simp only [overlay, ← hw, mdisk, hm, if_true]
     · exact Or.inr (Or.inr hw)
   | l1 σ =>
     simp only [hrp] at h
@@ -181,7 +215,7 @@ theorem inv_rstep {disk : TMap} {s s' : St} (inv : Inv disk s) (h : exec realCfg
       · rw [hrp] at h1
         right; right
         simp only [Pend] at h1 ⊢
-        cases hwu : s.wm u with
+        cases hwu : filt s.member s.wm u with
         | some t => left; simp
         | none => right; rw [hwu] at h1; exact fun e => h1 e.symm
   | l2 σ ν =>
@@ -189,15 +223,23 @@ theorem inv_rstep {disk : TMap} {s s' : St} (inv : Inv disk s) (h : exec realCfg
     have hs := inv.snapOk; rw [hrp] at hs
     refine ⟨inv.curOk, hs, ?_⟩
     intro u
-    by_cases hw : s.wm u = ν.files u
+    by_cases hw : filt s.member s.wm u = ν.files u
     · cases hn : ν.files u with
-      | some t => left; simp only [Ok, applySync, hn, overlay, hw]
+      | some t =>
+        left; intro hm
+        replace hm : s.member u = true := hm
+        rw [hn] at hw; simp only [filt, hm, if_true] at hw
+        simp only [applySync, hn, overlay, hw]
       | none =>
         cases ha : σ.files u with
-        | some t0 => left; simp only [Ok, applySync, hn, ha, overlay, hw]
+        | some t0 =>
+          left; intro hm
+          replace hm : s.member u = true := hm
+          rw [hn] at hw; simp only [filt, hm, if_true] at hw
+          simp only [applySync, hn, ha, overlay, hw, mdisk, hm, if_true]
         | none =>
           rcases inv.owe u with h1 | h1 | h1
-          · left; simp only [Ok, applySync, hn, ha]; exact h1
+          · left; intro hm; simp only [applySync, hn, ha]; exact h1 hm
           · exact Or.inr (Or.inl h1)
           · rw [hrp] at h1; simp only [Pend, hn, ha] at h1; rcases h1 with h1 | h1 <;> exact absurd rfl h1
     · exact Or.inr (Or.inr hw)
@@ -209,8 +251,8 @@ theorem inv_exec {disk : TMap} {s s' : St} {lab : Label} (inv : Inv disk s) (h :
   | reload => exact inv_reload inv h
   | rstep => exact inv_rstep inv h
 
-theorem inv_init (disk : TMap) (ms : List Notif) (k : Nat) : Inv disk (init disk ms k) :=
-  ⟨Or.inl rfl, trivial, fun u => Or.inl (by simp [Ok, init, overlay])⟩
+theorem inv_init (disk : TMap) (m0 : Uri → Bool) (ms : List Notif) (k : List (Uri → Bool)) : Inv disk (init disk m0 ms k) :=
+  ⟨Or.inl rfl, trivial, fun u => Or.inl (by intro hm; simp only [init] at hm ⊢; simp [overlay, mdisk, hm])⟩
 
 theorem inv_run {disk : TMap} {s s' : St} {sched : List Label} (inv : Inv disk s)
     (h : run realCfg disk s sched = some s') : Inv disk s' := by
@@ -228,8 +270,6 @@ theorem inv_run {disk : TMap} {s s' : St} {sched : List Label} (inv : Inv disk s
 theorem rMeasure_bump (v : Nat) (rp : RPhase) : rMeasure (v + 1) rp ≤ rMeasure v rp + 3 := by
   cases rp <;> simp only [rMeasure] <;> (try split) <;> (try split) <;> omega
 
-theorem steps_length (n : Notif) : (steps n).length = 2 := by cases n <;> rfl
-
 theorem measure_exec {disk : TMap} {s s' : St} {lab : Label} (h : exec realCfg disk s lab = some s') :
     measure s' < measure s := by
   cases lab with
@@ -238,7 +278,10 @@ theorem measure_exec {disk : TMap} {s s' : St} {lab : Label} (h : exec realCfg d
     split at h
     · rename_i st rest hc
       simp only [Option.some.injEq] at h; subst h
-      cases st <;> simp only [execStep, realCfg, if_true, measure, hc, List.length_cons]
+      cases st <;> simp only [execStep, realCfg, if_true, measure, hc, curW, stepW, List.map_cons, List.sum_cons]
+      · have := rMeasure_bump s.ver s.rp
+        split <;> (try simp only [List.map_cons, List.sum_cons, stepW]) <;> omega
+      · split <;> (try simp only [List.map_cons, List.sum_cons, stepW]) <;> omega
       · have := rMeasure_bump s.ver s.rp; omega
       · omega
       · have := rMeasure_bump s.ver s.rp; omega
@@ -248,19 +291,20 @@ theorem measure_exec {disk : TMap} {s s' : St} {lab : Label} (h : exec realCfg d
       · cases h
       · rename_i n ms hp
         simp only [Option.some.injEq] at h; subst h
-        simp only [measure, hc, hp, steps_length, List.length_cons, List.length_nil]; omega
+        cases n <;> simp only [measure, hc, hp, steps, realCfg, if_true, curW, stepW, List.map_cons, List.map_nil,
+          List.sum_cons, List.sum_nil, List.length_cons] <;> omega
   | reload =>
     simp only [exec] at h
     split at h
-    · rename_i k hrp hk
+    · rename_i m k hrp hk
       simp only [Option.some.injEq] at h; subst h
-      simp only [measure, hrp, hk, rMeasure]; omega
+      simp only [measure, hrp, hk, rMeasure, List.length_cons]; omega
     · cases h
   | rstep =>
     simp only [exec] at h
     cases hrp : s.rp with
     | idle => rw [hrp] at h; cases h
-    | r1 => rw [hrp] at h; simp only [Option.some.injEq] at h; subst h; simp only [measure, hrp, rMeasure]; omega
+    | r1 m => rw [hrp] at h; simp only [Option.some.injEq] at h; subst h; simp only [measure, hrp, rMeasure]; omega
     | r2 σ => rw [hrp] at h; simp only [Option.some.injEq] at h; subst h; simp only [measure, hrp, rMeasure]; omega
     | r3 σ =>
       rw [hrp] at h; simp only [realCfg, if_true, Option.some.injEq] at h; subst h
@@ -280,5 +324,100 @@ theorem measure_exec {disk : TMap} {s s' : St} {lab : Label} (h : exec realCfg d
 
 theorem quiescentB_iff (s : St) : quiescentB s = true ↔ quiescent s := by
   simp [quiescentB, quiescent, List.isEmpty_iff, and_assoc]
+
+
+/-! ## The server's record of the open documents is the editor's view -/
+
+/-- `wm` agrees with the editor's view `ed` except for the document of the handler that is about to record it -/
+structure EdInv (s : St) : Prop where
+  edSync : ∀ u t, Step.syncCheck u t ∈ s.cur → s.ed u = some t
+  edClose : ∀ u, Step.closeWm u ∈ s.cur → s.ed u = none
+  edWm : ∀ v, (∀ t, Step.syncCheck v t ∉ s.cur) → Step.closeWm v ∉ s.cur → s.wm v = s.ed v
+
+theorem edInv_exec {disk : TMap} {s s' : St} {lab : Label} (inv : Inv disk s) (e : EdInv s)
+    (h : exec realCfg disk s lab = some s') : EdInv s' := by
+  cases lab with
+  | main =>
+    simp only [exec] at h
+    rcases inv.curOk with hc | ⟨u, t, hc⟩ | ⟨u, t, hc, _⟩ | ⟨u, hc⟩ | ⟨u, hc, _⟩
+    · rw [hc] at h
+      cases hp : s.pending with
+      | nil => rw [hp] at h; cases h
+      | cons n ms =>
+        rw [hp] at h; simp only [Option.some.injEq] at h; subst h
+        have hwm : ∀ v, s.wm v = s.ed v := fun v => e.edWm v (by rw [hc]; simp) (by rw [hc]; simp)
+        cases n with
+        | edit u t =>
+          refine ⟨?_, ?_, ?_⟩
+          · intro v t' hv; simp [steps, realCfg] at hv; obtain ⟨rfl, rfl⟩ := hv; simp [edApply, set_same]
+          · intro v hv; simp [steps, realCfg] at hv
+          · intro v h1 _
+            have hvu : v ≠ u := by intro e'; subst e'; exact h1 t (by simp [steps, realCfg])
+            simp only [edApply, set_other _ _ hvu]; exact hwm v
+        | close u =>
+          refine ⟨?_, ?_, ?_⟩
+          · intro v t' hv; simp [steps] at hv
+          · intro v hv; simp [steps] at hv; subst hv; simp [edApply, set_same]
+          · intro v _ h2
+            have hvu : v ≠ u := by intro e'; subst e'; exact h2 (by simp [steps])
+            simp only [edApply, set_other _ _ hvu]; exact hwm v
+    · -- syncCheck u t
+      rw [hc] at h; simp only [execStep, realCfg, if_true, Option.some.injEq] at h; subst h
+      have hed : s.ed u = some t := e.edSync u t (by rw [hc]; simp)
+      refine ⟨?_, ?_, ?_⟩
+      · intro v t' hv; split at hv <;> simp at hv
+      · intro v hv; split at hv <;> simp at hv
+      · intro v _ _
+        by_cases hvu : v = u
+        · subst hvu; simp only [set_same]; exact hed.symm
+        · simp only [set_other _ _ hvu]
+          exact e.edWm v (by rw [hc]; intro t'; simp; exact fun e' _ => hvu e') (by rw [hc]; simp)
+    · -- updAn
+      rw [hc] at h; simp only [execStep, Option.some.injEq] at h; subst h
+      exact ⟨by intro v t' hv; simp at hv, by intro v hv; simp at hv,
+        fun v _ _ => e.edWm v (by rw [hc]; simp) (by rw [hc]; simp)⟩
+    · -- closeWm u
+      rw [hc] at h; simp only [execStep, realCfg, if_true, Option.some.injEq] at h; subst h
+      have hed : s.ed u = none := e.edClose u (by rw [hc]; simp)
+      refine ⟨by intro v t' hv; simp at hv, by intro v hv; simp at hv, ?_⟩
+      intro v _ _
+      by_cases hvu : v = u
+      · subst hvu; simp only [set_same]; exact hed.symm
+      · simp only [set_other _ _ hvu]
+        exact e.edWm v (by rw [hc]; simp) (by rw [hc]; simp; exact hvu)
+    · -- closeAn
+      rw [hc] at h; simp only [execStep, Option.some.injEq] at h; subst h
+      exact ⟨by intro v t' hv; simp at hv, by intro v hv; simp at hv,
+        fun v _ _ => e.edWm v (by rw [hc]; simp) (by rw [hc]; simp)⟩
+  | reload =>
+    simp only [exec] at h
+    split at h
+    · cases h; exact ⟨e.edSync, e.edClose, e.edWm⟩
+    · cases h
+  | rstep =>
+    simp only [exec] at h
+    cases hrp : s.rp with
+    | idle => rw [hrp] at h; cases h
+    | r1 m => rw [hrp] at h; simp only [Option.some.injEq] at h; subst h; exact ⟨e.edSync, e.edClose, e.edWm⟩
+    | r2 σ => rw [hrp] at h; simp only [Option.some.injEq] at h; subst h; exact ⟨e.edSync, e.edClose, e.edWm⟩
+    | r3 σ => rw [hrp] at h; simp only [Option.some.injEq] at h; subst h; exact ⟨e.edSync, e.edClose, e.edWm⟩
+    | l1 σ =>
+      simp only [hrp] at h
+      split at h <;> (simp only [Option.some.injEq] at h; subst h; exact ⟨e.edSync, e.edClose, e.edWm⟩)
+    | l2 σ ν => rw [hrp] at h; simp only [Option.some.injEq] at h; subst h; exact ⟨e.edSync, e.edClose, e.edWm⟩
+
+theorem edInv_init (disk : TMap) (m0 : Uri → Bool) (ms : List Notif) (k : List (Uri → Bool)) :
+    EdInv (init disk m0 ms k) :=
+  ⟨by intro u t h; simp [init] at h, by intro u h; simp [init] at h, fun _ _ _ => rfl⟩
+
+theorem both_run {disk : TMap} {s s' : St} {sched : List Label} (inv : Inv disk s) (e : EdInv s)
+    (h : run realCfg disk s sched = some s') : Inv disk s' ∧ EdInv s' := by
+  induction sched generalizing s with
+  | nil => simp [run] at h; subst h; exact ⟨inv, e⟩
+  | cons lab rest ih =>
+    simp only [run] at h
+    split at h
+    · rename_i s1 h1; exact ih (inv_exec inv h1) (edInv_exec inv e h1) h
+    · cases h
 
 end SchedReload
